@@ -14,6 +14,9 @@ def ref_string(case, e, other=False):
     return s
 
 
+PLATFORM = 'big'
+
+
 def _define(scope, var, value):
     if scope.get(var, value) != value:
         raise ValueError('conflicting definitions of %s in one scope' % var)
@@ -23,7 +26,7 @@ def _define(scope, var, value):
 def build_doc(case):
     """Returns (flowir dict, manifest dict)."""
     comps = []
-    gvars, svars, cvars = {}, {}, {}
+    gvars, svars, cvars, pvars = {}, {}, {}, {}
     for j, c in enumerate(case['comps']):
         refs, args = [], []
         for e in c['refs']:
@@ -88,10 +91,62 @@ def build_doc(case):
                     for x in others:
                         if case['comps'][x].get('rep') is None:
                             _define(cvars.setdefault(x, {}), 'n', n + 1)
+                elif form in ('chain', 'chain+othercomp', 'chain:s+othercomp'):
+                    # the count is a component variable defined through another variable (substituted until none of a
+                    # defined variable remains); other components shadow that other variable in their own scope
+                    wa['replicate'] = '%(m)s'
+                    _define(cvars.setdefault(j, {}), 'm', '%(n)s')
+                    if form == 'chain:s+othercomp':
+                        _define(svars.setdefault(stage, {}), 'n', n)
+                        _define(gvars, 'n', n + 2)
+                    else:
+                        _define(gvars, 'n', n)
+                    if form != 'chain':
+                        for x in others:
+                            if case['comps'][x].get('rep') is None:
+                                _define(cvars.setdefault(x, {}), 'n', n + 1)
+                elif form.startswith('P:') or form == 'D:ds+pdecoy':
+                    # a second platform: default global < default stage < platform global < platform stage < component
+                    if (form == 'D:ds+pdecoy') != (case.get('platform') is None):
+                        raise ValueError('form %s and platform %r do not fit' % (form, case.get('platform')))
+                    pg = pvars.setdefault('global', {})
+                    ps = pvars.setdefault('stages', {}).setdefault(stage, {})
+                    if form == 'P:pg>ds':
+                        _define(svars.setdefault(stage, {}), 'n', n + 1)
+                        _define(pg, 'n', n)
+                    elif form == 'P:pg>dg':
+                        _define(gvars, 'n', n + 1)
+                        _define(pg, 'n', n)
+                    elif form == 'P:ps>pg':
+                        _define(gvars, 'n', n + 2)
+                        _define(pg, 'n', n + 1)
+                        _define(ps, 'n', n)
+                    elif form == 'P:ds':
+                        _define(gvars, 'n', n + 1)
+                        _define(svars.setdefault(stage, {}), 'n', n)
+                        _define(pg, 'unrelated', 1)
+                    elif form == 'P:c>pg':
+                        _define(cvars.setdefault(j, {}), 'n', n)
+                        _define(pg, 'n', n + 1)
+                    elif form == 'D:ds+pdecoy':
+                        _define(svars.setdefault(stage, {}), 'n', n)
+                        _define(pg, 'n', n + 1)
+                        _define(ps, 'n', n + 2)
+                    else:
+                        raise ValueError('unknown form %r' % (form,))
                 else:
                     raise ValueError('unknown form %r' % (form,))
         if c.get('agg'):
-            wa['aggregate'] = True
+            if c.get('agg_form') == 'chain':
+                # the flag is a component variable defined through a global one that other components shadow
+                wa['aggregate'] = '%(a)s'
+                _define(cvars.setdefault(j, {}), 'a', '%(b)s')
+                _define(gvars, 'b', 'yes')
+                for x in range(len(case['comps'])):
+                    if x != j and not case['comps'][x].get('agg'):
+                        _define(cvars.setdefault(x, {}), 'b', 'no')
+            else:
+                wa['aggregate'] = True
         if wa:
             d['workflowAttributes'] = wa
         comps.append(d)
@@ -105,6 +160,12 @@ def build_doc(case):
         if svars:
             v['stages'] = svars
         doc['variables'] = {'default': v}
+    if pvars:
+        pv = dict((k, v) for k, v in pvars.items() if v and (k != 'stages' or any(v.values())))
+        if 'stages' in pv:
+            pv['stages'] = dict((k, v) for k, v in pv['stages'].items() if v)
+        doc.setdefault('variables', {})[PLATFORM] = pv
+        doc['platforms'] = ['default', PLATFORM]
     if case.get('appdeps'):
         doc['application-dependencies'] = {'default': list(case['appdeps'])}
     return doc, dict(case.get('manifest') or {})
@@ -190,6 +251,17 @@ def family_structure(thorough):
                     j = single[0]
                     form_sets += [{j: f} for f in (('gvar', 'svar', 'cvar', 'g+othercomp', 's>g', 'c>s>g',
                                                     's+othercomp') if k <= 3 else ('gvar', 'svar', 'g+othercomp'))]
+                    if k > 3:
+                        more = ('chain+othercomp', 'P:pg>ds')
+                    elif thorough:
+                        more = ('chain', 'chain+othercomp', 'chain:s+othercomp', 'P:pg>ds', 'P:pg>dg', 'P:ps>pg',
+                                'P:ds', 'P:c>pg', 'D:ds+pdecoy')
+                    else:
+                        more = ('chain+othercomp', 'chain:s+othercomp', 'P:pg>ds', 'P:ps>pg', 'P:c>pg', 'D:ds+pdecoy')
+                    form_sets += [{j: f} for f in more]
+                    if any(agg):
+                        form_sets.append({'agg': 'chain'})
+                        form_sets.append({j: 'chain+othercomp', 'agg': 'chain'})
                     if len(set(stages)) > 1:
                         form_sets.append({j: 'g+otherstage'})
                 elif len(single) == 2:
@@ -320,11 +392,33 @@ def family_large(thorough):
                                        (False,) * (k - 1) + (agg_last,), labels, {}, False)
 
 
+def family_files(thorough):
+    """F: X (replicated) -> C, every path spelling (none, file, nested file, directory with a trailing separator,
+    nested directory with a trailing separator) x method."""
+    for cstage in (0, 1):
+        for aggc in (False, True):
+            for ab in (False, True):
+                if cstage == 1 and not ab:
+                    continue
+                for f in (None, 'out.txt', 'd/f', 'd/', 'd/e/'):
+                    for m in ('ref', 'copy', 'link') + (('output',) if f in ('out.txt', 'd/f') else ()):
+                        for arg in ('same', None) + (('path',) if f is None and m == 'ref' else ()):
+                            labels = {(0, 1): (ab, f, m, arg)}
+                            yield ('F', NEUTRAL[:2], (0, cstage), ((0, 1),), (2, None), (False, aggc), labels, {},
+                                   False)
+
+
 def case_from_item(item):
     fam, names, stages, edges, rep, agg, labels, forms, rev = item[:9]
     direct = item[9] if len(item) > 9 else None
     case = make_case(names, stages, edges, rep, agg, labels, forms=forms, direct=direct,
                      manifest=MANIFEST if direct else None, appdeps=APPDEPS if direct else None)
+    if any(str(f).startswith('P:') for k, f in (forms or {}).items() if k != 'agg'):
+        case['platform'] = PLATFORM
+    if (forms or {}).get('agg'):
+        for c in case['comps']:
+            if c['agg']:
+                c['agg_form'] = forms['agg']
     if rev:
         for c in case['comps']:
             c['refs'].reverse()
@@ -333,6 +427,6 @@ def case_from_item(item):
 
 
 def all_items(thorough):
-    for fam in (family_structure, family_names, family_directs, family_paths, family_large):
+    for fam in (family_structure, family_names, family_directs, family_paths, family_large, family_files):
         for it in fam(thorough):
             yield it
